@@ -353,7 +353,7 @@ func streamC17(c *Ctx) {
 	for _, be := range backendsAll {
 		im := NewImpl(be, c.Scratch)
 		// the ranges the planner derives from two constraints on one field (shared bounds, nil bounds), end to end
-		if !sameFieldCells(c, dr, im, be) || !longStringRanges(c, dr, be) {
+		if !sameFieldCells(c, dr, im, be) || !longStringRanges(c, dr, be) || !binaryAndArrayRanges(c, be) {
 			im.Destroy()
 			return
 		}
